@@ -68,6 +68,7 @@ var serverTaskKinds = []string{
 	"list-users", "get-user", "put-user", "delete-user",
 	"list-sessions", "get-session", "delete-session",
 	"list-shortcuts", "get-shortcut", "put-shortcut", "delete-shortcut",
+	"put-service-rename", "sso-noacs", "sso-noacs",
 }
 
 func genSched(g *Rng, tier string) *Plan {
@@ -156,7 +157,7 @@ func genSched(g *Rng, tier string) *Plan {
 		var kind string
 		switch g.PickW(4, 6) {
 		case 0:
-			kind = Pick(g, "shortcut", "shortcut-suffix", "put-service", "put-service-other", "delete-service", "sso-cookie", "metadata", "list-services")
+			kind = Pick(g, "shortcut", "shortcut-suffix", "put-service", "put-service-other", "delete-service", "sso-cookie", "metadata", "list-services", "put-service-rename", "sso-noacs")
 		default:
 			kind = serverTaskKinds[g.Intn(len(serverTaskKinds))]
 		}
@@ -828,6 +829,32 @@ func setupServerMode(p *Plan, s *sched, res *Result) func() {
 			}
 		}
 	}
+	// a provider whose two endpoints are written out of index order, neither marked as the default
+	sp3 := newSP("https://sp3.example.com", rsaKeys[1], "", srv.IDP.Metadata())
+	md3v := sp3.Metadata()
+	md3v.SPSSODescriptors[0].AssertionConsumerServices = []saml.IndexedEndpoint{
+		{Binding: saml.HTTPPostBinding, Location: "https://sp3.example.com/saml/acs", Index: 2},
+		{Binding: saml.HTTPPostBinding, Location: "https://sp3.example.com/saml/acs-one", Index: 1},
+	}
+	md3, err := xml.Marshal(md3v)
+	if err != nil {
+		panic(err)
+	}
+	if r := deliver(srv, "PUT", "https://idp.example.com/services/sp3", string(md3), "", nil); r.Code != 204 {
+		panic(fmt.Sprintf("setup: put service sp3: %d", r.Code))
+	}
+	noACSURL := func() string {
+		ar, err := sp3.MakeAuthenticationRequest(sp3.GetSSOBindingLocation(saml.HTTPRedirectBinding), saml.HTTPRedirectBinding, saml.HTTPPostBinding)
+		if err != nil {
+			panic(err)
+		}
+		ar.AssertionConsumerServiceURL = "" // the request names no endpoint: the IdP picks one from the registered metadata
+		u, err := ar.Redirect("rs", sp3)
+		if err != nil {
+			panic(err)
+		}
+		return u.String()
+	}
 	_ = inner.Put("/users/alice", samlidp.User{Name: "alice", Email: "alice@example.com", HashedPassword: cost4Hash})
 	_ = inner.Put("/users/bob", samlidp.User{Name: "bob", Email: "bob@example.com", HashedPassword: cost4Hash})
 	_ = inner.Put("/sessions/S1", saml.Session{ID: "S1", NameID: "alice@example.com", ExpireTime: time.Date(2001, 1, 1, 0, 0, 0, 0, time.UTC), UserName: "alice"})
@@ -880,6 +907,12 @@ func setupServerMode(p *Plan, s *sched, res *Result) func() {
 			do = func() *reply { return deliver(srv, "PUT", base+"/services/sp1", string(md1), "", nil) }
 		case "put-service-other":
 			do = func() *reply { return deliver(srv, "PUT", base+"/services/sp2", string(md2), "", nil) }
+		case "put-service-rename":
+			// the name sp1 is registered again, with metadata carrying another entity ID (the provider moved)
+			do = func() *reply { return deliver(srv, "PUT", base+"/services/sp1", string(md2), "", nil) }
+		case "sso-noacs":
+			u := noACSURL()
+			do = func() *reply { return deliver(srv, "GET", u, "", "", cookie) }
 		case "delete-service":
 			do = func() *reply { return deliver(srv, "DELETE", base+"/services/sp1", "", "", nil) }
 		case "list-users":
